@@ -24,8 +24,8 @@ import (
 	"sort"
 	"strings"
 
-	. "adharness/common"
 	"adharness/c12/entry"
+	. "adharness/common"
 
 	ad "github.com/pbenner/autodiff"
 )
@@ -278,9 +278,9 @@ func storedPositions(x interface{}) []int {
 
 // ---- history
 type aStep struct {
-	Op    string      // Coq term of the cop
-	Desc  string      // human readable
-	Chg   []int       // changed / new containers
+	Op    string // Coq term of the cop
+	Desc  string // human readable
+	Chg   []int  // changed / new containers
 	Obs   [][][]float64
 	St    [][]int
 	Ids   [][]int
@@ -289,16 +289,16 @@ type aStep struct {
 }
 
 type ACase struct {
-	Seed   uint64   `json:"seed"`
-	Index  int      `json:"index"`
-	Pairs  []string `json:"pairs"`
-	W      int      `json:"w"`
-	Steps  []aStep  `json:"-"`
-	Descs  []string `json:"descs"`
-	Bad    string   `json:"bad"`
-	At     int      `json:"at"`
-	NMut   int      `json:"nmut"`
-	NonZero bool    `json:"nonzero"` // a converted source had non-zero entries
+	Seed    uint64   `json:"seed"`
+	Index   int      `json:"index"`
+	Pairs   []string `json:"pairs"`
+	W       int      `json:"w"`
+	Steps   []aStep  `json:"-"`
+	Descs   []string `json:"descs"`
+	Bad     string   `json:"bad"`
+	At      int      `json:"at"`
+	NMut    int      `json:"nmut"`
+	NonZero bool     `json:"nonzero"` // a converted source had non-zero entries
 }
 
 func aSlotsCoq(s []float64) string {
